@@ -726,12 +726,23 @@ def canon_atom(a):
             return ("contains-any", tuple(const_chars_t(args[1])), _value(args[0]), pos)
         if p == SLICE_CONTAINS and const_strs(args[0]) is not None:
             return ("inlist", tuple(const_strs(args[0])), _value(args[1]), pos)
-        if p in ("std::iter::Iterator::all", "std::iter::Iterator::any") and len(args) == 2 and args[1][0] == "closure":
+        if p.endswith("<impl std::cmp::PartialEq for str>::eq") and len(args) == 2:
+            for x, y in ((args[0], args[1]), (args[1], args[0])):
+                if y[0] == "const" and isinstance(y[1], str):
+                    if y[1] == "":
+                        return ("empty", _value(x), pos)
+                    return ("inlist", (y[1],), _value(x), pos)
+        if p in ("std::iter::Iterator::all", "std::iter::Iterator::any") and len(args) == 2 and args[1][0] in ("closure", "fn"):
             it = args[0][2] if args[0][0] == "var" else args[0]
             if it[0] == "call" and it[1] == STR + "chars":
                 return (p.split("::")[-1], _value(it[2][0]), args[1][1], pos)
         return ("pred", p, tuple(_value(y) for y in args), pos)
     if k == "cmp":
+        # x.len() == 0  /  x.len() != 0   is an emptiness test
+        if a[1] in ("Eq", "Ne"):
+            for x, y in ((a[2], a[3]), (a[3], a[2])):
+                if y == ("const", 0) and x[0] == "call" and x[1].split("::")[-1] == "len" and len(x[2]) == 1:
+                    return ("empty", _value(x[2][0]), a[4] if a[1] == "Eq" else not a[4])
         return ("cmp", a[1], _value(a[2]), _value(a[3]), a[4])
     return ("other", show_atom(a))
 
